@@ -40,7 +40,7 @@ def lost_confirmed(ctx, floors):
 
 def common(ctx):
     """Generic rules applied, in both tiers, to every function the property's own check placed an obligation on."""
-    from .rules import r_fresh_result, r_values_not_rounded, r_dense_into_kron, r_hermitian_solver_operand, r_roots_rounded, r_scalar_dim_expand, r_subsystem_count
+    from .rules import r_fresh_result, r_values_not_rounded, r_dense_into_kron, r_no_npmatrix, r_hermitian_solver_operand, r_roots_rounded, r_scalar_dim_expand, r_subsystem_count
 
     ctx.rule("R-SHAPE", "the subsystem count of a two-row dimension table is its number of columns; inferred dimensions (roots of sizes) are rounded")
     ctx.rule("R-EFFECT", "array-returning functions are not memoised: every call returns a fresh object")
@@ -62,6 +62,8 @@ def common(ctx):
             in_anchor = f.file in anchors or any(a.endswith("/") and f.file.startswith(a) for a in anchors)
             if in_anchor and q not in ctx.analysed_functions and f.parent is None:
                 r_fresh_result(ctx, f)
+            if in_anchor and f.parent is None and ctx.prop == "C06" and "/channels/" in f.file:
+                r_no_npmatrix(ctx, f)
             if in_anchor and f.parent is None and ctx.prop == "C17":
                 r_values_not_rounded(ctx, f)
                 r_dense_into_kron(ctx, f)
